@@ -8,7 +8,7 @@
 namespace Frugal.Skeleton
 def decoder : String := "17ca3b1513b97227a6799a0a"
 def encoder : String := "5cbdaefa998ed87261c39697"
-def resolver : String := "7421c925da242e28e65a020f"
+def resolver : String := "dc943200c8dda6024f8f48fc"
 /-- full text (not only control structure) of `structDesc`, `tField`, `tType`, `fromDefsFields`,
     `fromDefsField`, `GetField`, `newTType`: the descriptor tables every codec theorem takes for granted -/
 def descTable : String := "cbfebd4eaff63fd247cc0a76"
